@@ -47,6 +47,16 @@ def synthetic(draw, max_n=30, widths=None, charset=gen.NAME_CHARS, long_names=Tr
     lower = draw(st.sampled_from(["upper", "upper", "lower", "mixed"]))
     seed = draw(st.integers(0, 2 ** 32 - 1))
     rows = synth_rows(seed, alpha, n, width, density, lower)
+    if n > 52 and draw(st.integers(0, 2)) == 0:
+        # tall alignments whose first (or last) 50..60 rows carry no gap at all: whatever a reader decides from the first rows
+        # must also hold for the rest
+        import random as _r
+        rnd = _r.Random(seed + 1)
+        k = min(n - 1, draw(st.sampled_from([50, 50, 51, 52, 60])))
+        full = ["".join(rnd.choice(alpha) for _ in range(width)) for _ in range(k)]
+        rows = (full + rows[k:]) if draw(st.booleans()) else (rows[:n - k] + full)
+        if not any("-" in r for r in rows):
+            rows[-1] = "-" + rows[-1][1:] if width > 1 else rows[-1]
     names = draw(gen.names_for(n, charset=charset, long_names=long_names))
     return {"names": names, "rows": rows, "source": "synthetic"}
 
